@@ -2,7 +2,8 @@
 (* The environment shared by the PpCore drivers: the plain files of the generated projects and  *)
 (* the one dependency d1 (source "D"), as materialised by lib/pp_engine.py (ENV_FILES).          *)
 EXTENDS PpCore
-PlainFiles == [ p1 |-> "a\n", p2 |-> "a", p3 |-> "a\n\nb\n", e0 |-> "", pc |-> "a\r\nb\r\n", p4 |-> "c\r\n" ]
+PlainFiles == [ p1 |-> "a\n", p2 |-> "a", p3 |-> "a\n\nb\n", e0 |-> "", pc |-> "a\r\nb\nc\r\n", p4 |-> "c\r\n",
+                pm |-> "a\nb\r\n" ]   \* pc, pm: files that mix the two endings (CRLF first / LF first)
 Env(le, trailing, depNl, clean) ==
   [le |-> le, trailing |-> trailing, clean |-> clean, files |-> PlainFiles, deps |-> {"d1"},
    \* d1.txtpp is the one-line source "D": its output ends with a line ending iff the option is on
